@@ -272,7 +272,9 @@ def _run_shard(args):
                 return False
         else:
             # shrinking: bound its duration; afterwards only the best case reproduces
-            limit = 45.0 if tier == "quick" else 180.0
+            limit = float(
+                os.environ.get("VERIF_SHRINK_S") or (45.0 if tier == "quick" else 180.0)
+            )
             if time.time() - state["shrink_t0"] > limit:
                 if case_key(case) != case_key(state["last_fail"]["case"]):
                     return False
